@@ -47,7 +47,7 @@ let prim_names = [
   "+", PAdd; "-", PSub; "*", PMul; "<", PLt; ">", PGt; "<=", PLe; ">=", PGe; "==", PEq; "!=", PNe;
   "not", PNot; "cons", PCons; "first", PFirst; "rest", PRest; "list", PList; "array", PArray;
   "aget", PAget; "aset", PAset; "append", PAppend; "len", PLen; "map", PMap; "apply", PApply;
-  "trace", PTrace; "failk", PFailK; "force", PForce; "substitute", PSubst ]
+  "trace", PTrace; "failk", PFailK; "concat", PConcat; "force", PForce; "substitute", PSubst ]
 
 let names : (string, int) Hashtbl.t = Hashtbl.create 64
 let rev_names : (int, string) Hashtbl.t = Hashtbl.create 64
